@@ -111,9 +111,9 @@ TB_FOLD = TB_COMMON + [
     "std::collections::HashSet modelled as a duplicate-free list in insertion order (mk_set); set payloads compared up to order",
 ]
 PROPS["C03"] = {
-    "props": ["Props/C03.v"],
+    "props": ["Props/C03.v", "Props/C03b.v"],
     "run": ["Run/FoldRun.v"],
-    "tables": ["T1", "T2v", "T3", "T3f", "T4"],
+    "tables": ["T1", "T2", "T2v", "T3", "T3f", "T4"],
     "n_quick": 300,
     "n_thorough": 3000,
     "trusted_base": TB_FOLD,
